@@ -4,7 +4,7 @@ EXTENDS Distance, ObsBase
 VARIABLES l, nbad
 
 Rows(o) == o.obs.rows
-ExpectRow(v, k) == SnpRow(v.ref, v.qs[k], v.hard)
+ExpectRow(v, k) == IF Has(v, "pads") THEN ShiftRow(SnpRow(v.ref, v.qs[k], v.hard), v.pads) ELSE SnpRow(v.ref, v.qs[k], v.hard)
 
 (* ---- C13 on snps: aggregate = per-sequence results, counted --------------- *)
 (* rows: the expected per-sequence rows (forced with TLCEval: TLC would otherwise *)
